@@ -356,14 +356,17 @@ def vm_crosscheck(prop, requires, oracle_fn, reqs, expected, chunk=300):
 
 # ----------------------------------------------------------------------------- findings
 def load_findings(prop):
-    f = ROOT / "known_findings.jsonl"
-    out = []
-    if f.exists():
+    files = [ROOT / "known_findings.jsonl"] + sorted((ROOT / "findings.d").glob("*.jsonl"))
+    out, seen = [], set()
+    for f in files:
+        if not f.exists():
+            continue
         for line in f.read_text().splitlines():
             line = line.strip()
             if line and not line.startswith("#"):
                 r = json.loads(line)
-                if r.get("property") == prop:
+                if r.get("property") == prop and r.get("id") not in seen:
+                    seen.add(r.get("id"))
                     out.append(r)
     return out
 
